@@ -138,6 +138,11 @@ DESC = {
  "C11-6": ("TWO SITES: `insert_flat` made pub(crate) and used by a `deserialize_with` for OneOf variants (strips flags, splices nested unions)", "hand-built OneOf with an optional variant or a nested OneOf: comes back changed"),
  "C11-7": ("Display prints a non-optional OneOf variant of a OneOf as its bare alternatives", "`OneOf[Boolean | OneOf[Number | String]]` prints like `OneOf[Boolean | Number | String]`"),
  "C16-11": ("(written by the main session, not a sub-agent) `include_json_shape!` reads `<name>.gen.shapes.rs`", "any crate that really uses the macro: the suite never expands it; before this round the checks computed the macro's path instead of observing it"),
+ "C10-7": ("`similar` Tuple arm: `ty == elements` rewritten as a zip-all (length test dropped) (round 7: what a differential tester is least likely to exercise)", "two tuples one of which is an exact prefix of the other: Tuple(Number,String) vs Option<Tuple(Number,String,Boolean)>"),
+ "C08-9": ("(Tuple, Array) arm: `|| r#type.is_optional()` dropped from the Null-variant test, mirrored arm left intact", "a tuple source first, then an array consisting solely of empty arrays: `[1,\"a\"]`, `[[],[]]` — the two orders admit different documents"),
+ "C16-12": ("compile_json creates the output file before the sources are read and merged ('fail fast')", "any failing source list (missing path, directory, empty list): Err is returned but a zero-length file is left / a good file of a previous build is truncated"),
+ "C13-9": ("create_subtype Tuple arm visits only Object / OneOf elements", "a tuple below the root with an Array or Tuple element that contains an object: `{\"entry\":[1,[{\"x\":1}]]}` — inner struct never defined"),
+ "C14-8": ("shape_representation Array arm hands the element shape (not the array shape) to a new `optional_of` helper", "array and element optional flags differ: `{\"id\":1,\"tags\":[\"a\"]}` + `{\"id\":2}` gives `Vec<String>` instead of `Option<Vec<String>>`"),
 }
 
 def main():
